@@ -102,7 +102,7 @@ class Data(Entity):
             if n_values < self.values.shape[0]:
                 kwargs.update({"values": self.values[mask]})
             else:
-                values = np.ones_like(self.values) * self.nan_value
+                values = np.full_like(self.values, self.nan_value)
                 values[mask] = self.values[mask]
 
                 kwargs.update({"values": values})
